@@ -27,8 +27,8 @@ RULE = ('random expression texts (NUMBER forms incl. 1,234.5 / 7. / 007, nested 
         'attached?, top-level class of receiver and operand (atom/mul/add), parentheses inserted?)')
 ASSUMPTIONS = [
     'decimal arithmetic is abstract in the theorems (any carrier); the oracle uses decimal.Decimal under the default context',
-    'literals and Decimal operands are generated with at most 15 significant digits (unary minus and from_value round '
-    'to the 28-digit context, which is invisible below that)',
+    'literals mostly have at most 15 significant digits; 4 % have 23-41 (the value of a literal is exact, every operation, '
+    'unary minus included, rounds to the 28-digit default context - the independent evaluator performs the same operations)',
     'cases where Decimal itself raises (division by zero, 0/0, overflow) are skipped for the value clauses only',
     'lark tokenisation of a printed expression is outside the model; the Lean parser ignores the ADD_OP/UNARY_OP class '
     '(theorem parse_class_blind) and the token kinds/texts lark produced are compared with the model on every case',
@@ -158,6 +158,11 @@ def gen_ws(rng, nl):
 
 def gen_num(rng):
     r = rng.random()
+    if rng.random() < .04:
+        # more significant digits than the 28 of the default decimal context: a literal's value is still the literal,
+        # exactly - only the results of operations are rounded
+        return (str(rng.randint(1, 9)) + ''.join(rng.choice('0123456789') for _ in range(rng.randint(9, 19))) + '.' +
+                ''.join(rng.choice('0123456789') for _ in range(rng.randint(12, 20))) + rng.choice('123456789'))
     if r < .35:
         ip = str(rng.randint(1, 20))
     elif r < .6:
